@@ -90,11 +90,12 @@ impl Drop for Worker {
     }
 }
 
-pub fn run_in_worker(slot: &mut Option<Worker>, id: &str, line: &str, timeout_ms: u64) -> Verdict {
+/// Err(description) when the worker died while running the case
+pub fn run_in_worker(slot: &mut Option<Worker>, id: &str, line: &str, timeout_ms: u64) -> Result<Verdict, String> {
     if slot.is_none() {
         match Worker::spawn(id) {
             Ok(w) => *slot = Some(w),
-            Err(e) => return Verdict::discard(format!("cannot spawn worker: {e}")),
+            Err(e) => return Ok(Verdict::discard(format!("cannot spawn worker: {e}"))),
         }
     }
     let w = slot.as_mut().unwrap();
@@ -103,24 +104,24 @@ pub fn run_in_worker(slot: &mut Option<Worker>, id: &str, line: &str, timeout_ms
     let reply = if dead { Err(RecvTimeoutError::Disconnected) } else { w.rx.recv_timeout(Duration::from_millis(timeout_ms)) };
     match reply {
         Ok(l) => match serde_json::from_str::<Verdict>(&l) {
-            Ok(v) => v,
+            Ok(v) => Ok(v),
             Err(e) => {
                 *slot = None;
-                Verdict::discard(format!("bad worker reply: {e}"))
+                Ok(Verdict::discard(format!("bad worker reply: {e}")))
             }
         },
         Err(RecvTimeoutError::Timeout) => {
             *slot = None; // Drop kills it
-            Verdict::discard("timeout")
+            Ok(Verdict::discard("timeout"))
         }
         Err(RecvTimeoutError::Disconnected) => {
             let status = w.child.wait().map(|s| s.to_string()).unwrap_or_else(|e| e.to_string());
             let tail = w.tail();
             *slot = None;
             if tail.contains("memory allocation of") {
-                Verdict::discard("out of memory (allocation failure under the worker's address-space limit)")
+                Ok(Verdict::discard("out of memory (allocation failure under the worker's address-space limit)"))
             } else {
-                Verdict::fail(format!("worker process died ({status}): {tail}"))
+                Err(format!("worker process died ({status}): {tail}"))
             }
         }
     }
